@@ -4,7 +4,7 @@ import re
 
 from ..model import (AnalysisError, walk_no_nested, dotted, norm, const_str,
                      fold_const, NotConst)
-from ..cfg import CFG, always_exits
+from ..cfg import CFG, always_exits, GuardWalker
 from .. import names
 
 EXPLANATION = (
@@ -185,11 +185,27 @@ def run(repo, rep, tier):
         if f is None:
             raise AnalysisError('WBEMSubscriptionManager.%s vanished'
                                 % cname)
-        for n in walk_no_nested(f.node):
-            if isinstance(n, ast.Assign) and norm(n.targets[0]) == 'name':
-                fp = format_parts(n.value)
-                if fp:
-                    builders[cname] = (fp[0], fp[1], n)
+        # the expression(s) that reach `<inst>['Name'] = ...`, through
+        # local re-bindings
+        work = [n.value for n in walk_no_nested(f.node)
+                if isinstance(n, ast.Assign) and len(n.targets) == 1 and
+                isinstance(n.targets[0], ast.Subscript) and
+                const_str(n.targets[0].slice) == 'Name']
+        seen_names = set()
+        while work:
+            e = work.pop()
+            fp = format_parts(e)
+            if fp:
+                builders[cname] = (fp[0], fp[1], e)
+                continue
+            if isinstance(e, ast.IfExp):
+                work += [e.body, e.orelse]
+            if isinstance(e, ast.Name) and e.id not in seen_names:
+                seen_names.add(e.id)
+                work += [n.value for n in walk_no_nested(f.node)
+                         if isinstance(n, ast.Assign) and
+                         len(n.targets) == 1 and
+                         norm(n.targets[0]) == e.id]
     adds = mgr.methods.get('add_server')
     if adds is None:
         raise AnalysisError('add_server vanished')
@@ -243,11 +259,13 @@ def run(repo, rep, tier):
             isinstance(c, ast.Call) and
             dotted(c.func) == 'server.conn.CreateInstance'
             for c in ast.walk(s))]
+        al_ = owned_aliases(f)
         appends = [s for s in cfg.stmts() if isinstance(s, ast.Expr) and
                    isinstance(s.value, ast.Call) and
                    isinstance(s.value.func, ast.Attribute) and
                    s.value.func.attr == 'append' and
-                   norm(s.value.func.value).startswith(lst)]
+                   (norm(s.value.func.value).startswith(lst) or
+                    al_.get(norm(s.value.func.value), '').startswith(lst))]
         ok = bool(appends) and bool(creates)
         for a in appends:
             dom = any(cfg.dominates(c, a) for c in creates)
@@ -286,7 +304,10 @@ def run(repo, rep, tier):
             reach = cfg.path_avoiding(
                 c, cfg.EXIT, lambda n: n in appends,
                 lambda a, b, labs: isinstance(a, ast.If) and
-                norm(a.test) == 'owned' and labs == {False})
+                len(labs) == 1 and list(labs)[0] in (True, False) and
+                any(norm(t_) == 'owned' and not pol_
+                    for t_, pol_ in GuardWalker._atoms(a.test,
+                                                       list(labs)[0])))
             ok = reach is None
             r2.ob(ok, '%s:create-then-append' % cname)
             if not ok:
@@ -306,26 +327,73 @@ def run(repo, rep, tier):
         r2.sites += 1
         r2.functions.add(f.fq)
         cfg = CFG(f.node)
-        dels = [s for s in cfg.stmts() if isinstance(s, ast.Expr) and
+        dels = [s for s in cfg.stmts() if isinstance(s, (ast.Expr,
+                                                          ast.Assign)) and
                 isinstance(s.value, ast.Call) and
-                dotted(s.value.func) == 'server.conn.DeleteInstance']
-        prune = [s for s in cfg.stmts() if isinstance(s, ast.Delete) and
-                 norm(s.targets[0]).startswith('inst_list[')]
-        src = [s for s in cfg.stmts() if isinstance(s, ast.Assign) and
-               norm(s.targets[0]) == 'inst_list' and
-               norm(s.value).startswith(lst)]
+                (dotted(s.value.func) or '').endswith('.DeleteInstance')]
+        # names bound to the owned list of this kind
+        aliases = {lst}
+        for s_ in cfg.stmts():
+            if isinstance(s_, ast.Assign) and len(s_.targets) == 1 and \
+                    isinstance(s_.targets[0], ast.Name) and \
+                    norm(s_.value).startswith(lst):
+                aliases.add(s_.targets[0].id)
+
+        def is_list(e):
+            return norm(e) in aliases or norm(e).startswith(lst)
+
+        def names_path(e):
+            """the expression is `<x>.path`"""
+            return isinstance(e, ast.Attribute) and e.attr == 'path'
+
+        def selects(cmp_, eq):
+            """the comparison relates an entry's .path to the deleted path
+            with == (eq True) or != (eq False)"""
+            if not (isinstance(cmp_, ast.Compare) and len(cmp_.ops) == 1):
+                return False
+            if not isinstance(cmp_.ops[0], ast.Eq if eq else ast.NotEq):
+                return False
+            l_, r_ = cmp_.left, cmp_.comparators[0]
+            return (names_path(l_) and norm(r_) == pvar) or \
+                (names_path(r_) and norm(l_) == pvar)
+        sfacts = stmt_facts(f.node)
+        prune = []          # (stmt, selected by the deleted path?)
+        for s_ in cfg.stmts():
+            if isinstance(s_, ast.Delete) and \
+                    isinstance(s_.targets[0], ast.Subscript) and \
+                    is_list(s_.targets[0].value) and \
+                    not isinstance(s_.targets[0].slice, ast.Constant):
+                fs = sfacts.get(s_, ((), ()))[0]
+                prune.append((s_, any(pol and selects(t, True)
+                                      for t, pol in fs)))
+            elif isinstance(s_, ast.Assign) and len(s_.targets) == 1 and \
+                    isinstance(s_.value, ast.ListComp) and \
+                    ((isinstance(s_.targets[0], ast.Subscript) and
+                      isinstance(s_.targets[0].slice, ast.Slice) and
+                      is_list(s_.targets[0].value)) or
+                     norm(s_.targets[0]).startswith(lst)):
+                comp = s_.value
+                g = comp.generators[0]
+                prune.append((s_, len(comp.generators) == 1 and
+                              is_list(g.iter) and
+                              norm(comp.elt) == norm(g.target) and
+                              len(g.ifs) == 1 and selects(g.ifs[0], False)))
+            elif isinstance(s_, ast.Expr) and \
+                    isinstance(s_.value, ast.Call) and \
+                    isinstance(s_.value.func, ast.Attribute) and \
+                    s_.value.func.attr in ('remove', 'pop') and \
+                    is_list(s_.value.func.value):
+                fs = sfacts.get(s_, ((), ()))[0]
+                prune.append((s_, any(pol and selects(t, True)
+                                      for t, pol in fs)))
         ok = len(dels) == 1 and norm(dels[0].value.args[0]) == pvar and \
-            bool(prune) and bool(src) and \
-            all(cfg.dominates(dels[0], p) for p in prune)
-        cond_ok = False
-        for p in prune:
-            fs = stmt_facts(f.node).get(p, ((), ()))[0]
-            if any(pol and norm(t) == 'inst.path == ' + pvar
-                   for t, pol in fs):
-                cond_ok = True
+            bool(prune) and \
+            all(cfg.dominates(dels[0], p_) for p_, _g in prune)
+        cond_ok = bool(prune) and all(g_ for _p, g_ in prune)
         r2.ob(ok and cond_ok, rname + ':delete-then-prune',
               {'function': rname, 'delete': norm(dels[0]) if dels else None,
-               'prune_guard': 'inst.path == ' + pvar})
+               'prune_guard': '<entry>.path == ' + pvar,
+               'prune_statements': [norm(p_, 50) for p_, _g in prune]})
         if not (ok and cond_ok):
             rep.finding(r2, f.qualname, 'DeleteInstance / prune',
                         'delete-prune', SM, f.node.lineno,
@@ -387,6 +455,15 @@ def run(repo, rep, tier):
                                                         'tuple'):
                                 it = it.args[0]
                             src = resolve_list(it, f, bind)
+                elif isinstance(a, ast.Attribute) and a.attr == 'path' and \
+                        isinstance(a.value, ast.Subscript):
+                    # DeleteInstance(lst[i].path): an element of the list
+                    src = resolve_list(a.value.value, f, bind)
+                elif isinstance(a, ast.Attribute) and a.attr == 'path' and \
+                        isinstance(a.value, ast.Call) and \
+                        isinstance(a.value.func, ast.Attribute) and \
+                        a.value.func.attr == 'pop':
+                    src = resolve_list(a.value.func.value, f, bind)
                 out.append((src, c, f))
             elif d.startswith('self.') and d.count('.') == 1 and depth < 2:
                 m = mgr.methods.get(d[5:])
@@ -564,15 +641,27 @@ def run(repo, rep, tier):
                 any(k.arg == 'ResultClass' and
                     norm(k.value) == 'SUBSCRIPTION_CLASSNAME'
                     for k in s.value.keywords)]
-        guard = []
-        for s in cfg.stmts():
-            if isinstance(s, ast.If) and refq and \
-                    norm(s.test) == norm(refq[0].targets[0]) and \
-                    always_exits(s.body) and isinstance(s.body[-1],
-                                                        ast.Raise):
-                guard.append(s)
-        ok = bool(dels) and bool(refq) and bool(guard) and all(
-            any(cfg.dominates(g, d) for g in guard) and
+        # the delete runs only where the query result is known to be empty,
+        # and a non-empty result is refused (not silently skipped)
+        sf3 = stmt_facts(f.node)
+        rv = norm(refq[0].targets[0]) if refq else None
+
+        def knows(st_, pol_):
+            for t, pl in sf3.get(st_, ((), ()))[0]:
+                if norm(t) == rv and pl == pol_:
+                    return True
+                if isinstance(t, ast.Compare) and len(t.ops) == 1 and \
+                        norm(t.left) == 'len(%s)' % rv and \
+                        norm(t.comparators[0]) == '0':
+                    empty = isinstance(t.ops[0], ast.Eq) == pl
+                    if isinstance(t.ops[0], (ast.Eq, ast.NotEq)) and \
+                            empty != pol_:
+                        return True
+            return False
+        refused = [s_ for s_ in sf3 if isinstance(s_, ast.Raise) and
+                   knows(s_, True)]
+        ok = bool(dels) and bool(refq) and bool(refused) and all(
+            knows(d, False) and
             any(cfg.dominates(q, d) for q in refq) for d in dels)
         r3.ob(ok, rname + ':ref-guard',
               {'function': rname,
@@ -673,6 +762,18 @@ def recursion_forwards_parameters(repo, rep):
                             % r8.sites)
 
 
+def owned_aliases(func, prefix='self._owned_'):
+    """{local name: owned-list expression text} for locals bound to (an
+    element of) one of the manager's owned-list tables"""
+    out = {}
+    for n in walk_no_nested(func.node):
+        if isinstance(n, ast.Assign) and len(n.targets) == 1 and \
+                isinstance(n.targets[0], ast.Name) and \
+                norm(n.value).startswith(prefix):
+            out[n.targets[0].id] = norm(n.value)
+    return out
+
+
 def owned_only_after_create(repo, rep):
     """C18.R9: in the _create_* methods an instance enters an owned list
     only on paths on which this manager's CreateInstance has returned.  An
@@ -705,7 +806,8 @@ def owned_only_after_create(repo, rep):
                     creates.add(st)
                 if isinstance(c.func, ast.Attribute) and \
                         c.func.attr in ('append', 'insert', 'extend') and \
-                        '_owned_' in norm(c.func.value):
+                        ('_owned_' in norm(c.func.value) or
+                         norm(c.func.value) in owned_aliases(f)):
                     appends.append(st)
         if not creates or not appends:
             raise AnalysisError('%s: CreateInstance / owned-list update not '
